@@ -66,6 +66,37 @@ class Other:                  # unrelated decorated class, for mixed-type domain
         return f"Other#{self.k}"
 
 
+CONSTRUCTED = {"Made": 0, "Pair": 0}   # construction counters (real instances only: __post_init__ ran)
+
+
+@symbol
+@dataclass(eq=False)
+class Made:                   # target of rule inference: built from one binding
+    src: Any
+    val: Any = 0
+    extra: Any = "dflt"
+
+    def __post_init__(self):
+        CONSTRUCTED["Made"] += 1
+
+    def __repr__(self):
+        return f"Made({self.src!r}, {self.val!r}, {self.extra!r})"
+
+
+@symbol
+@dataclass(eq=False)
+class Pair:                   # target of rule inference over two variables
+    left: Any
+    right: Any
+    tag: Any = 0
+
+    def __post_init__(self):
+        CONSTRUCTED["Pair"] += 1
+
+    def __repr__(self):
+        return f"Pair({self.left!r}, {self.right!r}, {self.tag!r})"
+
+
 class Foreign:                # unrelated undecorated class
     def __init__(self, k):
         self.k = k
@@ -75,7 +106,8 @@ class Foreign:                # unrelated undecorated class
         return f"Foreign#{self.k}"
 
 
-CLASSES = {"Ent": Ent, "EntSub": EntSub, "EntPlain": EntPlain, "Other": Other, "Foreign": Foreign}
+CLASSES = {"Ent": Ent, "EntSub": EntSub, "EntPlain": EntPlain, "Other": Other, "Foreign": Foreign, "Made": Made,
+           "Pair": Pair}
 
 
 # ---- predicates (function form and class form) ---------------------------------------------
